@@ -80,7 +80,7 @@ pub fn generate(rng: &mut Rng, thorough: bool, out: &mut Out, values: bool) {
             }
         }
     }
-    let n = if thorough { 60000 } else { 2500 };
+    let n = if thorough { 60000 } else { 6000 };
     let maxd = if thorough { 9 } else { 5 };
     for i in 0..n {
         let k = match i % 10 {
